@@ -315,7 +315,7 @@ def _family_worker(args):
     idxs, driver_ok, dec_len, dec_runs = args[:4]
     which = args[4] if len(args) > 4 else 'nested-try'
     sys.path.insert(0, common.REPO)
-    fam = c05_gen.nested_try_family() if which == 'nested-try' else c05_gen.raise_handler_family()
+    fam = {'nested-try': c05_gen.nested_try_family, 'raise-handler': c05_gen.raise_handler_family, 'leaf-kind': c05_gen.leaf_kind_family}[which]()
     cases = [Case('%s-%d' % (which, i), c05_gen.render(fam[i])) for i in idxs]
     st = process(cases, driver_ok, True, dec_len, dec_runs)
     st['fails'] = st['fails'][:40]
@@ -387,7 +387,7 @@ def check(run):
     run.rule = ('programs: every FunctionDef of /repo (graphs only) + control skeletons enumerated in canonical order '
                 '(all nestings of if/while/for(+else)/with/try-except-else-finally/break/continue/return/raise/nested def, '
                 'rich mode adds lambdas/class/return-lambda leaves; jumps only where legal; dead code included) up to a '
-                '[plus the targeted exhaustive families c05_gen.nested_try_family (try statements nested inside finally/handler/else parts of another try) and c05_gen.raise_handler_family (nested trys with bare/Exception/BaseException/class/tuple handlers and raises of ordinary and BaseException-only classes)] '
+                '[plus the targeted exhaustive families c05_gen.nested_try_family (try statements nested inside finally/handler/else parts of another try) c05_gen.leaf_kind_family (every simple-statement kind in every statement position of the small skeletons) and c05_gen.raise_handler_family (nested trys with bare/Exception/BaseException/class/tuple handlers and raises of ordinary and BaseException-only classes)] '
                 'statement and depth bound, exhaustive below the bound, stride-sampled (seed-derived offset) above the cap; '
                 'per program the decision tree of the instrumented copy is enumerated depth-first up to a length/run bound. '
                 'A case is a (program) or (program, decision vector); non-trivial = the function graph has more than 2 nodes')
@@ -402,6 +402,17 @@ def check(run):
     run.build_and_audit('MaltModel.Props.C05', model_files=MODEL_FILES)
     t0 = time.time()
     total = new_stats()
+    # ---- every statement kind has its visitor: the `visit_*` methods the real AstToCfg class has == those the model mirrors
+    if run.driver_ok:
+        sys.path.insert(0, common.REPO)
+        from malt.pyct import cfg as real_cfg
+        real_vis = {n[len('visit_'):] for n in vars(real_cfg.AstToCfg) if n.startswith('visit_')} - {'Print'}   # ast.Print: Python 2 only
+        model_vis = set(common.parse_sexp(_drive(['c05.visitors x'])[0]))
+        run.oblige('C05_visitors_cover_statements', 'correspondence', real_vis == model_vis,
+                   'visit_* methods of the real AstToCfg but not mirrored by the model: %s; mirrored by the model but missing from '
+                   'the real class (the statement kind falls back to generic_visit and gets no CFG node): %s'
+                   % (sorted(real_vis - model_vis), sorted(model_vis - real_vis)))
+        run.cov['visitors'] = sorted(real_vis)
     with _pool() as pool:
         # ---- corpus of past failures / witnesses, replayed first
         cdir = os.path.join(common.VERIF, 'corpus', 'C05')
@@ -468,6 +479,17 @@ def check(run):
         absorb(run, st, 'raise-handler')
         run.cov['raise_handler_family'] = dict({k: st[k] for k in ('programs', 'graphs', 'graph_equal', 'both_error', 'runs', 'walk_equal',
                                                                    'pc_ok', 'pc_rejected_expected', 'runs_exhaustive', 'run_outcomes')}, size=nfam, exhaustive=True)
+        merge_stats(total, dict(st, fails=[]))
+
+        # ---- targeted exhaustive family: every leaf kind in every statement position of the small skeletons
+        nfam = len(c05_gen.leaf_kind_family())
+        st = new_stats()
+        for r in pool.map(_family_worker, [(list(range(k, nfam, 64)), run.driver_ok, cfg['dec_len'], cfg['dec_runs'], 'leaf-kind') for k in range(64)]):
+            merge_stats(st, r)
+        absorb(run, st, 'leaf-kind')
+        run.cov['leaf_kind_family'] = dict({k: st[k] for k in ('programs', 'graphs', 'graph_equal', 'both_error', 'runs', 'walk_equal',
+                                                               'pc_ok', 'pc_rejected_expected', 'runs_exhaustive')}, size=nfam, exhaustive=True,
+                                           leaf_kinds=[' '.join(str(x) for x in l) for l in c05_gen.LEAF_KINDS] + ['BRK', 'CONT'])
         merge_stats(total, dict(st, fails=[]))
 
         # ---- skeleton spaces
